@@ -39,7 +39,7 @@ T_C04 == /\ P!Lifecycle(Log)
 T_C05 == /\ P!AtMostOnce(Log) /\ P!InOrder(Log) /\ P!RestartsNumbered(Events) /\ R.witness
          /\ P!StoppedLast(Log) /\ P!IncMonotone(Log) /\ P!IncOrder(Log)      \* what follows a failure goes to a fresh, initialised receiver
          /\ R.quiet => \A a \in Actors : (Reg[a] /\ P!NotStopping(Issued, Events, a)) => \A k \in Accepted[a] : P!Handled(Log, a, k)
-T_C06 == /\ P!RestartsBounded(Events) /\ R.witness
+T_C06 == /\ P!RestartsBounded(Events) /\ R.witness /\ (R.respawns = 0 => P!ExhaustedOnce(Events))
          /\ (R.quiet /\ R.respawns = 0) => P!CleanAfterExhaustion(Events, Issued, Reg, TRUE)
 T_C06_Clean_strict == (R.quiet /\ R.respawns = 0) => P!CleanAfterExhaustion(Events, Issued, Reg, FALSE)
 T_C07 == /\ P!KindsKnown(Log)
